@@ -141,6 +141,8 @@ POOL = [
     # characters whose lower(), casefold() and upper() forms disagree (Cherokee, dotted capital I, sharp s, Kelvin)
     ("cherokee-small", "\uab70xcel"), ("cherokee-capital", "\u13a0eader"), ("dotted-capital-i", "\u0130"),
     ("sharp-s", "\u00df"), ("kelvin-sign", "\u212a"), ("final-sigma", "\u03a3\u03c2"),
+    # half of a surrogate pair: text that came from a lenient decoder (no UTF-8 form)
+    ("lone-surrogate", "\ud83d"), ("surrogate-in-text", "a\udc00b"), ("surrogate-quoted", '"\ud800"'),
     # an indented line, then a NUL on a line of its own
     ("indent-then-nul", "1\n 2\n\x00"), ("tab-indent-then-nul", "customer_id\n\t,kind\n\x00"),
     # nesting deeper than the interpreter's recursion limit
@@ -448,7 +450,8 @@ class Env(object):
 
     def write_cid(self, name, rows):
         path = self.path(name)
-        with open(path, "w", encoding="utf-8", newline="") as f:
+        # half a surrogate pair in a cell goes into the file as the three bytes a lenient encoder makes of it
+        with open(path, "w", encoding="utf-8", errors="surrogatepass", newline="") as f:
             csv.writer(f, lineterminator="\n").writerows(rows)
         return path
 
